@@ -20,7 +20,7 @@ NA = {
  "C18": "pure functions of two texts",
 }
 
-PENDING = {k: "simulation check designed (DESIGN.md section 3) but not built yet in this commit; not claimed until it runs" for k in ["C08","C19","C20"]}
+PENDING = {k: "simulation check designed (DESIGN.md section 3) but not built yet in this commit; not claimed until it runs" for k in ["C08","C19"]}
 
 def check(pid, category, text, note, technique, design_ref):
     return {
@@ -46,6 +46,9 @@ CHECKS = {
  "C09": check("C09", "fault_enumeration",
     "The fault grid is enumerated completely - consumer drop after k=0..8 items with or without an idle consumer, and a panic of the processing function or of the upstream iterator (ticket lock held) on item j=0..8, for pipe / buffered / pipe+buffered, W=0..4, B=0..3, bounded and unbounded upstream - and inside each cell thread schedules and delay patterns are sampled from the seed. Oracles, no stronger than the statement: a generous linear look-ahead envelope 8*(W+B)+16 at every event, every background thread exits after the drop within the step cap, and a worker panic ends in ProcessExit(code != 0) reached through the repository's own hook closure, never in a blocked or spinning consumer. Fault points are few and discrete, so enumerating them is right; schedules are not enumerable (busy-wait), so they are sampled.",
     TRUST, "deterministic simulation with enumerated fault injection (drop / panic / idle) under a seeded scheduler, unbounded upstream, simulated process::exit and panic hook", "DESIGN.md 3 (C09)"),
+ "C20": check("C20", "exploration",
+    "Seeded search over generated corpora and options (max_size None/0/1/<|V|/=|V|/>|V|, max_sequences incl. 0 and cuts across file boundaries, words / char 1-grams / char 3-grams), each created with 2-3 different num_threads values in separate simulated processes under seeded thread schedules and per-process hash keys (simulated OS entropy). Every result is compared with an independent sequential count / top-k / argmin reference, with the results of the other thread counts (must be identical), and through save->load; get_closest is checked for minimal distance and maximal frequency among ties. The thread-count and schedule independence and the dependence of tie-breaks on per-process hash order are exactly what a simulator can vary and a unit test cannot.",
+    TRUST + " The reference obtains tokens and distances through the library's pure text functions (clean, normalize, split_words, edit::distance).", "deterministic simulation: seeded schedules x thread counts x simulated OS entropy over real Dictionary::create/save/load/get_closest, sequential reference model as oracle", "DESIGN.md 3 (C20)"),
 }
 
 def main():
